@@ -1083,7 +1083,9 @@ def _shape_arg(args):
 
 
 @tmethod("view", "reshape")
-def t_view(it, t, *shape):
+def t_view(it, t, *shape, **kw):
+    if "shape" in kw and not shape:
+        shape = (kw["shape"],)
     shape = _shape_arg(shape)
     shape = tuple(s.e if isinstance(s, SV) else s for s in shape)
     if any(isinstance(d, int) and d == -1 for d in shape):
@@ -1188,7 +1190,16 @@ def t_clamp(it, t, min=None, max=None):
 
 @tmethod("tolist")
 def t_tolist(it, t):
-    raise OutOfSubset("Tensor.tolist() of a symbolic tensor")
+    """nested python lists of the elements (python floats / ints / bools); every dimension must be a known number"""
+    if not all(isinstance(d, int) for d in t.shape_):
+        raise OutOfSubset("Tensor.tolist() of a tensor with a symbolic dimension")
+    kind = {"real": "real", "int": "int", "bool": "bool"}[t.dtype]
+
+    def build(prefix, dims):
+        if not dims:
+            return SV(z3.simplify(t.fn(tuple(z3.IntVal(i) for i in prefix))), kind)
+        return [build(prefix + (i,), dims[1:]) for i in range(dims[0])]
+    return build((), t.shape_)
 
 
 @tmethod("index_put")
@@ -1278,6 +1289,18 @@ def m_ones_like(it, t, dtype=None, **kw):
 def m_tensor(it, data, dtype=None, **kw):
     if isinstance(data, STensor):
         return STensor(data.shape_, data.fn, data.dtype)
+    from .coll import SSeq, ListCodec
+    if isinstance(data, SSeq):
+        # a list of unknown length: numbers -> 1-D, equally long lists of numbers -> 2-D
+        n = data.length
+        if isinstance(data.ec, ListCodec):
+            return STensor((n, data.ec.inner_len), lambda idx: z3.Select(data.at(idx[0]), idx[1]), "real")
+        if data.ec.sort == z3.RealSort():
+            return STensor((n,), lambda idx: data.at(idx[0]), "real")
+        if data.ec.sort == z3.IntSort():
+            t1 = STensor((n,), lambda idx: data.at(idx[0]), "int")
+            return t_float(it, t1) if dtype in (torch.float32, torch.float64, torch.float, torch.double) else t1
+        raise OutOfSubset(f"torch.tensor of a list of {data.ec.name}")
     t = as_tensor(it, data)
     if t is not None:
         if dtype in (torch.float32, torch.float64, torch.float, torch.double):
